@@ -427,4 +427,40 @@ example : ∃ rt' w', renderN 2 {} (.for_ "x".toList (.arr (.lit (.arr [iV 1, iV
   refine ⟨_, _, rfl, ?_⟩
   decide
 
+/-- **`include` is transparent for interrupts** (and for every other register): what an `include`
+leaves in the runtime is exactly what the partial's body left, minus the argument frame — in
+particular a `break` / `continue` raised inside the partial is still pending for the enclosing loop
+of the including template; `include` neither clears nor raises one. -/
+theorem C05_include_transparent (fuel : Nat) (env : Env) (name : Expr) (args : List (Str × Expr))
+    (rt : Rt) (w : W) (s : Sc) (pass : Obj) (t : Tmpl)
+    (hn : name.eval rt.layers = .ok (.sc s)) (ha : evalVars rt.layers args [] = .ok pass)
+    (hp : lookupPartial env s.render = .ok t) :
+    renderN (fuel + 1) env (.include_ name args) rt w =
+      (match renderT fuel env t { rt with layers := .plain pass :: rt.layers } w with
+       | (r, rt', w') => (r, { rt' with layers := rt'.layers.drop 1 }, w')) := by
+  simp [renderN, hn, ha, hp, M.inFrames, renderT]
+
+/-- so the registers after an `include` — the pending interrupt among them — are the ones the
+partial's body left behind -/
+theorem C05_include_keeps_interrupt (fuel : Nat) (env : Env) (name : Expr) (args : List (Str × Expr))
+    (rt : Rt) (w : W) (s : Sc) (pass : Obj) (t : Tmpl)
+    (hn : name.eval rt.layers = .ok (.sc s)) (ha : evalVars rt.layers args [] = .ok pass)
+    (hp : lookupPartial env s.render = .ok t) :
+    (renderN (fuel + 1) env (.include_ name args) rt w).2.1.regs =
+      (renderT fuel env t { rt with layers := .plain pass :: rt.layers } w).2.1.regs := by
+  rw [C05_include_transparent fuel env name args rt w s pass t hn ha hp]
+  have hshape := renderT_keeps_frames env fuel t { rt with layers := .plain pass :: rt.layers } w
+  generalize renderT fuel env t { rt with layers := .plain pass :: rt.layers } w = x at hshape ⊢
+  obtain ⟨r, rt', w'⟩ := x
+  obtain ⟨ls, core⟩ := rt'
+  cases ls with
+  | nil => simp [Stack.shape] at hshape
+  | cons l ls =>
+    have hk : l.kind ≠ 1 := by
+      simp only [Stack.shape, List.map_cons, List.cons.injEq] at hshape
+      have h0 : l.kind = 0 := hshape.1
+      rw [h0]; decide
+    simp only [Rt.regs, List.drop_succ_cons, List.drop_zero]
+    exact (Stack.regs_cons_nonsandbox l ls core hk).symm
+
 end Liquid.C05
